@@ -184,6 +184,20 @@ static void container(vh::Rng & r, vh::Out & out, int typeIdx)
     .i("n", (long long)pts.size()).b("hasMinMax", true).b("hasScale", false).b("inf", false).i("side", 0).b("exact", ok));
 }
 
+template<class S>
+static void interval1(vh::Rng & r, vh::Out & out)
+{
+  long long l1 = r.range(-30, 30), u1 = l1 + (r.coin(1, 5) ? 0 : r.range(0, 20)), l2 = r.range(-30, 30), u2 = l2 + r.range(0, 20);
+  long long p2 = r.pick(IV{2 * l1, 2 * u1, r.range(2 * l1 - 6, 2 * u1 + 6)});
+  Interval<S, 1> I((S)l1, (S)u1);
+  bool inside = I.inside((S)(p2 / 2.0));
+  Interval<S, 1> J((S)l1, (S)u1); J.include(Interval<S, 1>((S)l2, (S)u2));
+  bool ok = true;
+  out.put(vh::Ev("interval1").i("l1", l1).i("u1", u1).i("l2", l2).i("u2", u2).i("p2", p2).b("inside", inside)
+    .i("rl", vh::proj((double)J.lower(), ok, 1e-9)).i("ru", vh::proj((double)J.upper(), ok, 1e-9))
+    .i("w", vh::proj((double)I.width(), ok, 1e-9)).i("c2", vh::proj(2.0 * (double)I.center(), ok, 1e-9)).b("exact", ok));
+}
+
 int main(int argc, char ** argv)
 {
   if (argc != 5 || std::string(argv[1]) != "random") {std::fprintf(stderr, "usage: drive_boxes random seed n out\n"); return 3;}
@@ -212,6 +226,7 @@ int main(int argc, char ** argv)
       case 10: container<Eigen::Array2f, 2>(r, out, 10); break;
       default: container<Eigen::Array3f, 3>(r, out, 11);
     }
+    if (k % 2) {interval1<double>(r, out);} else {interval1<float>(r, out);}
     if (k % 50 == 49) {out.put(vh::Ev("Reset"));}
   }
   std::printf("%lld\n", out.lines);
